@@ -25,10 +25,16 @@ func TokenSignature(rawKey []byte, signed string) []byte {
 	return m.Sum(nil)
 }
 
+// NoExp as the exp argument of MakeToken omits the claim.
+const NoExp = int64(-1 << 62)
+
 // MakeToken issues a token under rawKey.
 func MakeToken(rawKey []byte, kid, sub, iss string, iat, exp int64, jti string) string {
 	hdr, _ := json.Marshal(map[string]string{"alg": "HS256", "typ": "JWT", "kid": kid})
 	pl := map[string]any{"sub": sub, "jti": jti, "iat": iat, "exp": exp}
+	if exp == NoExp {
+		delete(pl, "exp") // a token that carries no expiry: only its age can end it
+	}
 	if iss != "" {
 		pl["iss"] = iss
 	}
